@@ -15,6 +15,8 @@
 (*   "M"                the literal 9223372036854775807: the largest one     *)
 (*   "T"                the digit run 1500: sub-second terms that reach whole *)
 (*                      seconds ("1500ms" is 1 s + 500 ms)                    *)
+(*   "K"                the digit run 1000: sub-second terms that are EXACTLY *)
+(*                      whole seconds ("-1000ms" is -1 s, no fraction left)   *)
 (*                                                                         *)
 (* The scanner walks the characters; at every non-digit that is not the      *)
 (* first character it parses the text since `start` as a signed integer,     *)
@@ -30,7 +32,7 @@ EXTENDS Integers, Sequences, TLC
 CONSTANT MaxLen
 CONSTANT Alphabet          \* the symbols strings are built from
 
-Digits  == {"1", "2", "T"}
+Digits  == {"1", "2", "T", "K"}
 BigNums == {"B", "M"}
 Signs   == {"+", "-"}
 Letters == {"n", "s", "u", "m", "h", "d", "w", "o", "y", "x"}
@@ -58,6 +60,7 @@ RECURSIVE DigitsVal(_, _)
 DigitsVal(t, acc) == IF t = <<>> THEN acc
                      ELSE IF acc > ModelMax THEN acc            \* saturate: already beyond
                      ELSE DigitsVal(Tail(t), IF Head(t) = "T" THEN acc * 10000 + 1500
+                                             ELSE IF Head(t) = "K" THEN acc * 10000 + 1000
                                              ELSE acc * 10 + (IF Head(t) = "1" THEN 1 ELSE 2))
 NumOf(t) ==
     LET body == IF t # <<>> /\ Head(t) \in Signs THEN Tail(t) ELSE t
